@@ -383,3 +383,13 @@ Proof.
     by (apply range_forall; vm_compute; reflexivity).
   apply (F n). lia.
 Qed.
+
+(* ---- GenerateHeader: the first header byte (opcode, FIN = 128, RSV1 = 64) ---- *)
+Lemma gen_header_b0_is server fin compress op len key : (op < 256)%N ->
+  Z.of_N (hd 0%N (generate_header server fin compress op len key))
+  = gf_gws_frameHeader_GenerateHeader_b0 server fin compress (Z.of_N op) len.
+Proof.
+  intro H. unfold generate_header, gf_gws_frameHeader_GenerateHeader_b0.
+  destruct (set_length (u64_of_int len)) as [lc ext]. change (2 ^ 8)%N with 256%N.
+  destruct server; cbn [app hd]; destruct fin, compress; cbn zeta; lia.
+Qed.
